@@ -106,7 +106,7 @@ func FuzzC08Filter(f *testing.F) {
 		if flen < 0 || flen > 36000 || k > 50 || len(item) > 512 {
 			return
 		}
-		c := c08Filter{FilterLen: flen, Fill: fill, HashFuncs: k, Tweak: tweak, Flags: flags % 3, ViaWire: viaWire, Item: item,
+		c := c08Filter{FilterLen: flen, Fill: fill, HashFuncs: k, Tweak: tweak, Flags: flags % 3, ViaWire: viaWire, Item: item, ReloadLen: int(elements % 70),
 			Elements: elements, FPBits: fpbits, Tx: c10Case{Len: 1, K: 1}}
 		if err := safeEval(evalC08Filter, c, &Obs{}); err != nil {
 			fuzzFail(t, "filterload", c, err)
